@@ -146,6 +146,13 @@ class Filter(object):
                 newkeys.append(skey)
                 oldvals.append(cfg_old.get(skey, None))
                 newvals.append(cfg_cur[skey])
+        # Keys that were removed since the last update (e.g. a box filter
+        # range that was deleted from the configuration)
+        for skey in list(cfg_old.keys()):
+            if skey not in cfg_cur:
+                newkeys.append(skey)
+                oldvals.append(cfg_old[skey])
+                newvals.append(None)
 
         # 1. Invalid filters
         arr_invalid = self._get_rw_array("invalid")
